@@ -137,9 +137,10 @@ func (rw *rewriter) rangeStmt(r *ast.RangeStmt, label *ast.Ident) ast.Stmt {
 	rw.sites++
 	id := strconv.Itoa(rw.n)
 	xv, pv, kv := ident("vmx__"+id), ident("vmp__"+id), ident("vmk__"+id)
-	lbl := label
-	if lbl == nil {
-		lbl = ident("VML__" + id)
+	outerL, innerL := "VML__"+id, "VMI__"+id
+	orig := ""
+	if label != nil {
+		orig = label.Name
 	}
 	site := fmt.Sprintf("%s:%d", rw.prefix, rw.fset.Position(r.Pos()).Line)
 	if r.Key == nil || isBlank(r.Key) {
@@ -147,15 +148,17 @@ func (rw *rewriter) rangeStmt(r *ast.RangeStmt, label *ast.Ident) ast.Stmt {
 		r.Tok = token.DEFINE
 	}
 	keyExpr := r.Key
-	fixBranches(r.Body.List, lbl, false, false)
+	bf := &branchFixer{outer: outerL, inner: innerL, pv: pv, orig: orig}
+	r.Body.List = bf.list(r.Body.List, false, false)
 	body := []ast.Stmt{
 		&ast.IfStmt{Cond: &ast.CallExpr{Fun: &ast.SelectorExpr{X: pv, Sel: ident("Skip")}, Args: []ast.Expr{keyExpr}},
 			Body: &ast.BlockStmt{List: []ast.Stmt{&ast.BranchStmt{Tok: token.CONTINUE}}}},
 	}
 	body = append(body, r.Body.List...)
 	body = append(body, &ast.IfStmt{Cond: &ast.CallExpr{Fun: &ast.SelectorExpr{X: pv, Sel: ident("IsMap")}},
-		Body: &ast.BlockStmt{List: []ast.Stmt{&ast.BranchStmt{Tok: token.CONTINUE, Label: ident(lbl.Name)}}}})
-	inner := &ast.RangeStmt{Key: r.Key, Value: r.Value, Tok: r.Tok, X: xv, Body: &ast.BlockStmt{List: body}}
+		Body: &ast.BlockStmt{List: []ast.Stmt{&ast.BranchStmt{Tok: token.CONTINUE, Label: ident(outerL)}}},
+		Else: &ast.BlockStmt{List: []ast.Stmt{&ast.BranchStmt{Tok: token.CONTINUE, Label: ident(innerL)}}}})
+	inner := &ast.LabeledStmt{Label: ident(innerL), Stmt: &ast.RangeStmt{Key: r.Key, Value: r.Value, Tok: r.Tok, X: xv, Body: &ast.BlockStmt{List: body}}}
 	outer := &ast.ForStmt{
 		Init: &ast.AssignStmt{Lhs: []ast.Expr{pv}, Tok: token.DEFINE, Rhs: []ast.Expr{
 			&ast.CallExpr{Fun: &ast.SelectorExpr{X: ident("vmap"), Sel: ident("Begin")},
@@ -165,53 +168,78 @@ func (rw *rewriter) rangeStmt(r *ast.RangeStmt, label *ast.Ident) ast.Stmt {
 	}
 	return &ast.BlockStmt{List: []ast.Stmt{
 		&ast.AssignStmt{Lhs: []ast.Expr{xv}, Tok: token.DEFINE, Rhs: []ast.Expr{r.X}},
-		&ast.LabeledStmt{Label: ident(lbl.Name), Stmt: outer},
+		&ast.LabeledStmt{Label: ident(outerL), Stmt: outer},
 	}}
 }
 
-// fixBranches labels the unlabeled break/continue statements that bind to the rewritten loop.
-func fixBranches(l []ast.Stmt, lbl *ast.Ident, inLoop, inSwitch bool) {
-	for _, s := range l {
-		fixBranch(s, lbl, inLoop, inSwitch)
-	}
+// fixBranches rewrites the break/continue statements that bind to the rewritten loop
+// (unlabeled ones at the loop's own nesting level, and ones carrying the loop's original
+// label): break -> break OUTER; continue -> if p.IsMap() { continue OUTER } else
+// { continue INNER } (for a non-map operand the real iteration is the inner loop).
+type branchFixer struct {
+	outer, inner string
+	pv           *ast.Ident
+	orig         string // original label of the loop ("" = none)
 }
 
-func fixBranch(s ast.Stmt, lbl *ast.Ident, inLoop, inSwitch bool) {
+func (bf *branchFixer) list(l []ast.Stmt, inLoop, inSwitch bool) []ast.Stmt {
+	for i, s := range l {
+		l[i] = bf.stmt(s, inLoop, inSwitch)
+	}
+	return l
+}
+
+func (bf *branchFixer) stmt(s ast.Stmt, inLoop, inSwitch bool) ast.Stmt {
 	switch v := s.(type) {
 	case *ast.BranchStmt:
-		if v.Label != nil {
-			return
+		mine := false
+		if v.Label == nil {
+			if v.Tok == token.BREAK && !inLoop && !inSwitch {
+				mine = true
+			}
+			if v.Tok == token.CONTINUE && !inLoop {
+				mine = true
+			}
+		} else if bf.orig != "" && v.Label.Name == bf.orig && (v.Tok == token.BREAK || v.Tok == token.CONTINUE) {
+			mine = true
 		}
-		if v.Tok == token.BREAK && !inLoop && !inSwitch {
-			v.Label = ident(lbl.Name)
+		if !mine {
+			return s
 		}
-		if v.Tok == token.CONTINUE && !inLoop {
-			v.Label = ident(lbl.Name)
+		if v.Tok == token.BREAK {
+			v.Label = ident(bf.outer)
+			return v
+		}
+		return &ast.IfStmt{
+			Cond: &ast.CallExpr{Fun: &ast.SelectorExpr{X: ident(bf.pv.Name), Sel: ident("IsMap")}},
+			Body: &ast.BlockStmt{List: []ast.Stmt{&ast.BranchStmt{Tok: token.CONTINUE, Label: ident(bf.outer)}}},
+			Else: &ast.BlockStmt{List: []ast.Stmt{&ast.BranchStmt{Tok: token.CONTINUE, Label: ident(bf.inner)}}},
 		}
 	case *ast.BlockStmt:
-		fixBranches(v.List, lbl, inLoop, inSwitch)
+		v.List = bf.list(v.List, inLoop, inSwitch)
 	case *ast.IfStmt:
-		fixBranches(v.Body.List, lbl, inLoop, inSwitch)
+		v.Body.List = bf.list(v.Body.List, inLoop, inSwitch)
 		if v.Else != nil {
-			fixBranch(v.Else, lbl, inLoop, inSwitch)
+			v.Else = bf.stmt(v.Else, inLoop, inSwitch)
 		}
 	case *ast.ForStmt:
-		fixBranches(v.Body.List, lbl, true, inSwitch)
+		v.Body.List = bf.list(v.Body.List, true, inSwitch)
 	case *ast.RangeStmt:
-		fixBranches(v.Body.List, lbl, true, inSwitch)
+		v.Body.List = bf.list(v.Body.List, true, inSwitch)
 	case *ast.SwitchStmt:
-		fixBranches(v.Body.List, lbl, inLoop, true)
+		v.Body.List = bf.list(v.Body.List, inLoop, true)
 	case *ast.TypeSwitchStmt:
-		fixBranches(v.Body.List, lbl, inLoop, true)
+		v.Body.List = bf.list(v.Body.List, inLoop, true)
 	case *ast.SelectStmt:
-		fixBranches(v.Body.List, lbl, inLoop, true)
+		v.Body.List = bf.list(v.Body.List, inLoop, true)
 	case *ast.CaseClause:
-		fixBranches(v.Body, lbl, inLoop, inSwitch)
+		v.Body = bf.list(v.Body, inLoop, inSwitch)
 	case *ast.CommClause:
-		fixBranches(v.Body, lbl, inLoop, inSwitch)
+		v.Body = bf.list(v.Body, inLoop, inSwitch)
 	case *ast.LabeledStmt:
-		fixBranch(v.Stmt, lbl, inLoop, inSwitch)
+		v.Stmt = bf.stmt(v.Stmt, inLoop, inSwitch)
 	}
+	return s
 }
 
 func main() {
